@@ -484,9 +484,9 @@ func checkNullableTree(p *Program, r *Report, pv *Prov) {
 			// recorded exception: a context-specific copy looked up by its mangled name. Such copies are
 			// created (below) with a copy of a tested tree and are never emptied: escapeTemplate stores
 			// nil only into members of nameSpace.set, which never contains mangled names.
-			if g := staticCallee(x.Common()); g != nil && g.Name() == "template" && len(x.Common().Args) == 2 {
+			if g := staticCallee(x.Common()); g != nil && g == findEscaperTemplateLookup(p) && len(x.Common().Args) == 2 {
 				if mc, ok := x.Common().Args[1].(*ssa.Call); ok {
-					if mg := staticCallee(mc.Common()); mg != nil && mg.Name() == "mangle" {
+					if mg := staticCallee(mc.Common()); mg != nil && mg == findMangle(p) {
 						differs := false
 						for _, gd := range GuardsOf(b) {
 							if bo, ok := gd.Cond.(*ssa.BinOp); ok && bo.X == ssa.Value(mc) && ((bo.Op.String() == "!=") == gd.Pol) {
